@@ -6,6 +6,7 @@
 import SimVerif.Lemmas.AcceptInv
 
 namespace SimVerif
+namespace Hs
 
 /-- the full invariant between labels -/
 structure HFull (a : String) (aep : Ep) (s : HS) : Prop where
@@ -32,7 +33,7 @@ theorem HFull.listen {a : String} {aep : Ep} {s : HS} (h : HFull a aep s) (qs : 
   rcases accListen_sum s.net a qs va ac hva hac with he | ⟨hopen, s0, hs0, he⟩
   · rw [he]; exact h
   · rw [he]
-    have hv0 : s0.view = va := by
+    have hv0 : s0.hview = va := by
       have := hva; simp only [NetSt.sv, hs0, Option.map_some, Option.some.injEq] at this; exact this
     have hsv : ∀ o, (s.net.setTcp a { s0 with acc := some { ac with queueLimit := if qs = -1 then 20 else qs } }).sv o
         = if o = a then some { va with acc := some { ac with queueLimit := if qs = -1 then 20 else qs } } else s.net.sv o := by
@@ -56,13 +57,13 @@ theorem HFull.listen {a : String} {aep : Ep} {s : HS} (h : HFull a aep s) (qs : 
 /-! ### closeAcceptor -/
 
 theorem HFull.closeAcceptor {a : String} {aep : Ep} {s : HS} (h : HFull a aep s) :
-    HFull a aep { s with net := (s.net.accClose s.now a).1, bag := s.bag ++ forwards (s.net.accClose s.now a).2 } := by
+    HFull a aep { s with net := (s.net.accClose s.now a).1, bag := s.bag ++ fwdPkts (s.net.accClose s.now a).2 } := by
   obtain ⟨va, ac, hva, hac, _⟩ := h.inv.a_ex
   obtain ⟨c1, c2, c3, c4, c5, c6, c7, _, c9⟩ := accClose_sum s.net s.now a va ac hva hac
   generalize s.net.accClose s.now a = r at *
   obtain ⟨n', e⟩ := r
   simp only at c1 c2 c3 c4 c5 c6 c7 c9 ⊢
-  refine ⟨h.inv.closeAcc va ac hva hac n' (forwards e) c1 c2 c3 c4 c5 c6 c7 c9, ?_⟩
+  refine ⟨h.inv.closeAcc va ac hva hac n' (fwdPkts e) c1 c2 c3 c4 c5 c6 c7 c9, ?_⟩
   intro va1 ac1 hva1 _ hop1 _
   rw [c5 a, if_pos rfl] at hva1; cases hva1; cases hop1
 
@@ -140,7 +141,7 @@ theorem HFull.deliverSynAck {a : String} {aep : Ep} {s : HS} (h : HFull a aep s)
   cases hch : v.connectH with
   | none =>
     rw [t1 hch]
-    simp only [forwards_nil, okPosts_nil, List.map_nil, List.append_nil]
+    simp only [fwdPkts_nil, okPosts_nil, List.map_nil, List.append_nil]
     have := h.inv.upd1 c hca v s.net (s.bag.eraseIdx i ++ []) s.conLog rfl (Nat.le_refl _) rfl (fun _ => rfl)
       (fun o' => by split <;> simp_all) (fun e he => Or.inl he) (fun hh => hh)
       (fun g => by
@@ -158,7 +159,7 @@ theorem HFull.deliverSynAck {a : String} {aep : Ep} {s : HS} (h : HFull a aep s)
   | some hh =>
     obtain ⟨s0, hs0, hv0, he⟩ := t2 hh hch
     rw [he]
-    have hfw : forwards [NEff.post { h := hh, ec := Ec.ok }, NEff.tcpWake c] = [] := rfl
+    have hfw : fwdPkts [NEff.post { h := hh, ec := Ec.ok }, NEff.tcpWake c] = [] := rfl
     have hok' : okPosts [NEff.post { h := hh, ec := Ec.ok }, NEff.tcpWake c] = [{ h := hh, ec := Ec.ok }] := rfl
     simp only [hfw, hok', List.map_cons, List.map_nil, tcp?_setTcp_same, Option.bind_some]
     have hsv : ∀ o', (s.net.setTcp c { s0 with connectH := none }).sv o'
@@ -232,7 +233,7 @@ theorem pairwise_append_errs {bag fw : List Pkt}
 
 theorem HInv.check {a : String} {aep : Ep} {s : HS} (h : HInv a aep s) :
     HFull a aep { s with net := (s.net.accCheckQueue s.now a).1,
-                         bag := s.bag ++ forwards (s.net.accCheckQueue s.now a).2,
+                         bag := s.bag ++ fwdPkts (s.net.accCheckQueue s.now a).2,
                          accLog := s.accLog ++ accDones (s.accCalls - 1) (s.net.pendingAccept a)
                                       (s.net.accCheckQueue s.now a).1 (s.net.accCheckQueue s.now a).2 } := by
   obtain ⟨va, ac, hva, hac, hvch⟩ := h.a_ex
@@ -245,7 +246,7 @@ theorem HInv.check {a : String} {aep : Ep} {s : HS} (h : HInv a aep s) :
     simp only at c1 c2 c3 c4 c5 c6 c7 ⊢
     simp only [accDones, c6, List.map_nil, List.append_nil]
     obtain ⟨dropped, hf, _⟩ := h.fifo va ac hva hac
-    have := h.updA va ac { ac with conns := [], acceptOp := none } hva hac n' (s.bag ++ forwards e) s.synLog s.accCalls
+    have := h.updA va ac { ac with conns := [], acceptOp := none } hva hac n' (s.bag ++ fwdPkts e) s.synLog s.accCalls
       c1 (by rw [c2]) (by rw [c3]) (fun c => by simp [NetSt.cv, NetSt.chan?, c3]) c5 (by rw [c4])
       (fun g => by simp [NetSt.fwdTarget, c2])
       (fun hc => (h.a_closed va ac hva hac hc).1)
@@ -268,7 +269,7 @@ theorem HInv.check {a : String} {aep : Ep} {s : HS} (h : HInv a aep s) :
   | true =>
     by_cases hidle : ac.acceptOp = none ∨ ac.conns = []
     · rw [accCheckQueue_idle s.net s.now a va ac hva hac hopen hidle]
-      simp only [forwards_nil, List.append_nil, accDones, okPosts_nil, List.map_nil]
+      simp only [fwdPkts_nil, List.append_nil, accDones, okPosts_nil, List.map_nil]
       refine ⟨h, ?_⟩
       intro va1 ac1 hva1 hac1 _ hpe
       rw [hva] at hva1; cases hva1
@@ -307,7 +308,7 @@ theorem HInv.check {a : String} {aep : Ep} {s : HS} (h : HInv a aep s) :
         simp only [Option.bind_some, hsp]
         exact congrArg SockV.fwd hspv
       simp only [accDones, c8, List.map_cons, List.map_nil, hop, hcid, hfwd']
-      have := h.attach va ac op c rest vp cv0 hva hac hopen hop hcs hvp hcv0 n' (forwards e) _
+      have := h.attach va ac op c rest vp cv0 hva hac hopen hop hcs hvp hcv0 n' (fwdPkts e) _
         c1 c2 c3 c4 c5 c6 c7 rfl c9
       refine ⟨this, ?_⟩
       intro va1 ac1 hva1 hac1 _ hpe1
@@ -396,12 +397,12 @@ theorem HFull.deliverSyn {a : String} {aep : Ep} {s : HS} (h : HFull a aep s) (i
 
 theorem HInv.closeSock {a : String} {aep : Ep} {s : HS} (h : HInv a aep s) (hae : aep ≠ {}) (o : String) (hoa : o ≠ a)
     (v : SockV) (hv : s.net.sv o = some v) :
-    HInv a aep { s with net := (s.net.tcpClose s.now o).1, bag := s.bag ++ forwards (s.net.tcpClose s.now o).2 } := by
+    HInv a aep { s with net := (s.net.tcpClose s.now o).1, bag := s.bag ++ fwdPkts (s.net.tcpClose s.now o).2 } := by
   obtain ⟨c1, c2, c3, c4, c5, c6, c7, _, c9⟩ := tcpClose_sum s.net s.now o v hv
   generalize s.net.tcpClose s.now o = r at *
   obtain ⟨n', e⟩ := r
   simp only at c1 c2 c3 c4 c5 c6 c7 c9 ⊢
-  exact h.upd1 o hoa ⟨false, {}, none, none, none, v.acc⟩ n' (s.bag ++ forwards e) s.conLog
+  exact h.upd1 o hoa ⟨false, {}, none, none, none, v.acc⟩ n' (s.bag ++ fwdPkts e) s.conLog
     c1 (by rw [c2]; exact Nat.le_refl _) c3 c6 c5
     (fun e he => by
       rw [c4] at he; split at he
@@ -423,12 +424,12 @@ theorem HInv.closeSock {a : String} {aep : Ep} {s : HS} (h : HInv a aep s) (hae 
 
 theorem HInv.openSock {a : String} {aep : Ep} {s : HS} (h : HInv a aep s) (hae : aep ≠ {}) (o : String) (hoa : o ≠ a)
     (v : SockV) (hv : s.net.sv o = some v) (v4 : Bool) :
-    HInv a aep { s with net := (s.net.tcpOpen s.now o v4).1, bag := s.bag ++ forwards (s.net.tcpOpen s.now o v4).2 } := by
+    HInv a aep { s with net := (s.net.tcpOpen s.now o v4).1, bag := s.bag ++ fwdPkts (s.net.tcpOpen s.now o v4).2 } := by
   obtain ⟨c1, c2, c3, c4, c5, c6, c7, _, c9⟩ := tcpOpen_sum s.net s.now o v4 v hv
   generalize s.net.tcpOpen s.now o v4 = r at *
   obtain ⟨n', e⟩ := r
   simp only at c1 c2 c3 c4 c5 c6 c7 c9 ⊢
-  exact h.upd1 o hoa ⟨true, {}, some s.net.fwds.length, none, none, v.acc⟩ n' (s.bag ++ forwards e) s.conLog
+  exact h.upd1 o hoa ⟨true, {}, some s.net.fwds.length, none, none, v.acc⟩ n' (s.bag ++ fwdPkts e) s.conLog
     c1 (by rw [c2]; omega) c3 c6 c5
     (fun e he => by
       rw [c4] at he; split at he
@@ -480,7 +481,7 @@ theorem accAsyncAccept_eq (n : NetSt) (now : Int) (a : String) (op : AcceptOp) (
        (((acceptPre n now a op).1.setTcp a { s1.abortAccept.1 with acc := some { ac1 with acceptOp := some op } }).accCheckQueue now a).2) := by
   have hab : s1.abortAccept.1.acc = some { ac1 with acceptOp := none } := by
     have := congrArg SockV.acc (abortAccept_sum s1).1
-    simpa [TcpSock.view, h2] using this
+    simpa [TcpSock.hview, h2] using this
   unfold NetSt.accAsyncAccept
   split
   rename_i n0 e0 heq
@@ -493,7 +494,7 @@ theorem HFull.accept {a : String} {aep : Ep} {s : HS} (h : HFull a aep s) (hae :
     (hok : s.ok a (.accept op)) : HFull a aep (s.step a tp (.accept op)) := by
   obtain ⟨va, ac, hva, hac, _⟩ := h.inv.a_ex
   -- stage 0: the socket accepted into
-  have h0 : HInv a aep { s with net := (acceptPre s.net s.now a op).1, bag := s.bag ++ forwards (acceptPre s.net s.now a op).2 }
+  have h0 : HInv a aep { s with net := (acceptPre s.net s.now a op).1, bag := s.bag ++ fwdPkts (acceptPre s.net s.now a op).2 }
       ∧ (acceptPre s.net s.now a op).1.sv a = s.net.sv a
       ∧ ((acceptPre s.net s.now a op).1.sv op.peer).isSome ∧ op.peer ≠ a
       ∧ okPosts (acceptPre s.net s.now a op).2 = [] := by
@@ -504,20 +505,20 @@ theorem HFull.accept {a : String} {aep : Ep} {s : HS} (h : HFull a aep s) (hae :
       simp only [acceptPre, hp, AcceptOp.peer]
       cases hpo : p.isOpen with
       | false =>
-        simp only [Bool.false_eq_true, if_false, forwards_nil, List.append_nil, okPosts_nil]
+        simp only [Bool.false_eq_true, if_false, fwdPkts_nil, List.append_nil, okPosts_nil]
         refine ⟨h.inv, ?_, ?_, hpa, ?_⟩ <;> first | rfl | trivial | simp [NetSt.sv, hp]
       | true =>
         simp only [if_true]
-        have hv : s.net.sv peer = some p.view := by simp [NetSt.sv, hp]
-        refine ⟨h.inv.closeSock hae peer hpa p.view hv, ?_, ?_, hpa, ?_⟩
-        · rw [(tcpClose_sum s.net s.now peer p.view hv).2.2.2.2.1 a, if_neg (Ne.symm hpa)]
-        · rw [(tcpClose_sum s.net s.now peer p.view hv).2.2.2.2.1 peer, if_pos rfl]; rfl
-        · exact (tcpClose_sum s.net s.now peer p.view hv).2.2.2.2.2.2.2.1
+        have hv : s.net.sv peer = some p.hview := by simp [NetSt.sv, hp]
+        refine ⟨h.inv.closeSock hae peer hpa p.hview hv, ?_, ?_, hpa, ?_⟩
+        · rw [(tcpClose_sum s.net s.now peer p.hview hv).2.2.2.2.1 a, if_neg (Ne.symm hpa)]
+        · rw [(tcpClose_sum s.net s.now peer p.hview hv).2.2.2.2.1 peer, if_pos rfl]; rfl
+        · exact (tcpClose_sum s.net s.now peer p.hview hv).2.2.2.2.2.2.2.1
     | fresh hh nn =>
       have hnn : s.net.tcp? nn = none := hok
       obtain ⟨s0, hs0, _⟩ := sv_some hva
       have hna : nn ≠ a := by intro he; rw [he, hs0] at hnn; cases hnn
-      simp only [acceptPre, hs0, AcceptOp.peer, forwards_nil, List.append_nil, okPosts_nil]
+      simp only [acceptPre, hs0, AcceptOp.peer, fwdPkts_nil, List.append_nil, okPosts_nil]
       have hsvn : s.net.sv nn = none := by simp [NetSt.sv, hnn]
       have hsv : ∀ o', (s.net.setTcp nn { node := s0.node }).sv o'
           = if o' = nn then some ⟨false, {}, none, none, none, none⟩ else s.net.sv o' := by
@@ -544,13 +545,13 @@ theorem HFull.accept {a : String} {aep : Ep} {s : HS} (h : HFull a aep s) (hae :
       = if o = a then some { va with acc := some { ac with acceptOp := some op } } else n0.sv o := by
     intro o; rw [sv_setTcp]; split
     · rw [← hv1]
-      have := b1; simp only [TcpSock.view] at this ⊢
+      have := b1; simp only [TcpSock.hview] at this ⊢
       simp only [SockV.mk.injEq] at this
       simp [this.1, this.2.1, this.2.2.1, this.2.2.2.1, this.2.2.2.2.1]
     · rfl
   have hva0 : n0.sv a = some va := hsa.trans hva
   have h1 := h0.updA va ac { ac with acceptOp := some op } hva0 hac
-    (n0.setTcp a { s1.abortAccept.1 with acc := some { ac with acceptOp := some op } }) (s.bag ++ forwards e0) s.synLog (s.accCalls + 1)
+    (n0.setTcp a { s1.abortAccept.1 with acc := some { ac with acceptOp := some op } }) (s.bag ++ fwdPkts e0) s.synLog (s.accCalls + 1)
     rfl rfl rfl (fun _ => rfl) hsv rfl (fun _ => rfl)
     (fun hc => (h0.a_closed va ac hva0 hac hc).1)
     (h0.fifo va ac hva0 hac)
@@ -567,14 +568,14 @@ theorem HFull.accept {a : String} {aep : Ep} {s : HS} (h : HFull a aep s) (hae :
   have e1 : (n0.setTcp a { s1.abortAccept.1 with acc := some { ac with acceptOp := some op } }).pendingAccept a = some op := by
     rw [pendingAccept_of_sv (by rw [hsv, if_pos rfl]) rfl]
   rw [e1] at h2
-  simp only [forwards_append, b3, List.append_nil, accDones, okPosts_append, hok0, b2, List.nil_append,
+  simp only [fwdPkts_append, b3, List.append_nil, accDones, okPosts_append, hok0, b2, List.nil_append,
     Nat.add_sub_cancel] at h2 ⊢
   rw [← List.append_assoc]
   exact h2
 
 /-! ### connect -/
 
-theorem dials_of_errs (c : String) (target : Ep) (n' : NetSt) (e : List NEff) (h : ∀ q ∈ forwards e, q.ty = .err) :
+theorem dials_of_errs (c : String) (target : Ep) (n' : NetSt) (e : List NEff) (h : ∀ q ∈ fwdPkts e, q.ty = .err) :
     dials c target n' e = [] := by
   unfold dials
   rw [List.filterMap_eq_nil_iff]
@@ -631,27 +632,27 @@ theorem HFull.connect {a : String} {aep : Ep} {s : HS} (h : HFull a aep s) (hae 
     (hh : Nat) (tp : TParams) (hok : s.ok a (.connect c target hh)) :
     HFull a aep (s.step a tp (.connect c target hh)) := by
   obtain ⟨hca, sk, hsk, hskc⟩ := hok
-  have hvk : s.net.sv c = some sk.view := by simp [NetSt.sv, hsk]
+  have hvk : s.net.sv c = some sk.hview := by simp [NetSt.sv, hsk]
   simp only [HS.step]
   rw [tcpConnect_eq s.net s.now c target hh sk hsk]
   -- stage 1: open if closed
   have S1 : ∀ r1, r1 = (if !sk.isOpen then s.net.tcpOpen s.now c target.isV4 else (s.net, [])) →
-      HInv a aep { s with net := r1.1, bag := s.bag ++ forwards r1.2 } ∧ r1.1.sv a = s.net.sv a
+      HInv a aep { s with net := r1.1, bag := s.bag ++ fwdPkts r1.2 } ∧ r1.1.sv a = s.net.sv a
       ∧ (∃ v1, r1.1.sv c = some v1 ∧ v1.chan = none ∧ v1.isOpen = true)
-      ∧ (∀ q ∈ forwards r1.2, q.ty = .err) := by
+      ∧ (∀ q ∈ fwdPkts r1.2, q.ty = .err) := by
     intro r1 hr1
     cases hopn : sk.isOpen with
     | true =>
       simp only [hopn, Bool.not_true, Bool.false_eq_true, if_false] at hr1
       subst hr1
-      simp only [forwards_nil, List.append_nil]
-      refine ⟨h.inv, ?_, ⟨sk.view, hvk, hskc, hopn⟩, by simp⟩
+      simp only [fwdPkts_nil, List.append_nil]
+      refine ⟨h.inv, ?_, ⟨sk.hview, hvk, hskc, hopn⟩, by simp⟩
       first | rfl | trivial
     | false =>
       simp only [hopn, Bool.not_false, if_true] at hr1
       subst hr1
-      obtain ⟨_, _, _, _, c5, _, _, _, c9⟩ := tcpOpen_sum s.net s.now c target.isV4 sk.view hvk
-      refine ⟨h.inv.openSock hae c hca sk.view hvk target.isV4, ?_, ⟨_, by rw [c5 c, if_pos rfl], rfl, rfl⟩, c9⟩
+      obtain ⟨_, _, _, _, c5, _, _, _, c9⟩ := tcpOpen_sum s.net s.now c target.isV4 sk.hview hvk
+      refine ⟨h.inv.openSock hae c hca sk.hview hvk target.isV4, ?_, ⟨_, by rw [c5 c, if_pos rfl], rfl, rfl⟩, c9⟩
       rw [c5 a, if_neg (Ne.symm hca)]
   obtain ⟨h1, hsa1, ⟨v1, hv1, hv1c, hv1o⟩, herr⟩ := S1 _ rfl
   generalize (if !sk.isOpen then s.net.tcpOpen s.now c target.isV4 else (s.net, [])) = r1 at *
@@ -665,18 +666,18 @@ theorem HFull.connect {a : String} {aep : Ep} {s : HS} (h : HFull a aep s) (hae 
   obtain ⟨n2, ecb⟩ := r2
   simp only at b1 b2 b3 b4 ⊢
   have hpw := pairwise_append_errs h.inv.b_syn1 (fun q hq => (errs_not_syn herr q hq).1)
-  have S2 : HInv a aep { s with net := n2, bag := s.bag ++ forwards e0 } ∧ n2.sv a = s.net.sv a
+  have S2 : HInv a aep { s with net := n2, bag := s.bag ++ fwdPkts e0 } ∧ n2.sv a = s.net.sv a
       ∧ (∃ v2, n2.sv c = some v2 ∧ v2.chan = none ∧ v2.isOpen = true) := by
     rcases b4 with ⟨r1, r2⟩ | ⟨_, ep2, r1, r2, r3⟩
     · have hsv : ∀ o', n2.sv o' = n1.sv o' := fun o' => by simp [NetSt.sv, r2 o']
       refine ⟨?_, by rw [hsv, hsa1], ⟨v1, by rw [hsv, hv1], hv1c, hv1o⟩⟩
-      exact h1.sameView c hca v1 hv1 n2 (s.bag ++ forwards e0) b1 b2 b3 r1 hsv (fun _ hp => Or.inl hp) h1.b_syn1
+      exact h1.sameView c hca v1 hv1 n2 (s.bag ++ fwdPkts e0) b1 b2 b3 r1 hsv (fun _ hp => Or.inl hp) h1.b_syn1
     · have hsv : ∀ o', n2.sv o' = if o' = c then some { v1 with bound := ep2 } else n1.sv o' := by
         intro o'; simp only [NetSt.sv, r3 o']; split
         · rw [← hs1v]; rfl
         · rfl
       refine ⟨?_, by rw [hsv, if_neg (Ne.symm hca), hsa1], ⟨{ v1 with bound := ep2 }, by rw [hsv, if_pos rfl], hv1c, hv1o⟩⟩
-      exact h1.upd1 c hca { v1 with bound := ep2 } n2 (s.bag ++ forwards e0) s.conLog b1 (by rw [b2]; exact Nat.le_refl _)
+      exact h1.upd1 c hca { v1 with bound := ep2 } n2 (s.bag ++ fwdPkts e0) s.conLog b1 (by rw [b2]; exact Nat.le_refl _)
         (by rw [b3]) (fun d => by simp [NetSt.cv, NetSt.chan?, b3]) hsv
         (fun e he => by
           rw [r2] at he
@@ -703,11 +704,11 @@ theorem HFull.connect {a : String} {aep : Ep} {s : HS} (h : HFull a aep s) (hae 
     rw [hs', hn'] at hva; exact h.work va ac hva hac hop hpe
   -- the cases that post an error at once
   have Serr : ∀ ec : Ec, ec ≠ .ok →
-      HFull a aep { s with net := n2, bag := s.bag ++ forwards (e0 ++ [NEff.post { h := hh, ec := ec }]),
+      HFull a aep { s with net := n2, bag := s.bag ++ fwdPkts (e0 ++ [NEff.post { h := hh, ec := ec }]),
                            dialLog := s.dialLog ++ dials c target n2 (e0 ++ [NEff.post { h := hh, ec := ec }]) } := by
     intro ec _
-    have hf : forwards (e0 ++ [NEff.post { h := hh, ec := ec }]) = forwards e0 := by
-      rw [forwards_append]; simp [forwards]
+    have hf : fwdPkts (e0 ++ [NEff.post { h := hh, ec := ec }]) = fwdPkts e0 := by
+      rw [fwdPkts_append]; simp [fwdPkts]
     rw [dials_of_errs c target n2 _ (by rw [hf]; exact herr), hf, List.append_nil]
     exact ⟨h2, hwork n2 hsa2 _ rfl⟩
   split
@@ -723,49 +724,49 @@ theorem HFull.connect {a : String} {aep : Ep} {s : HS} (h : HFull a aep s) (hae 
       obtain ⟨n3, e3⟩ := r
       simp only at d1 d2 ⊢
       subst d1; subst d2
-      have hf : forwards (e0 ++ [NEff.armAfter c 0 50000000 (ICb.tcpConnectRefused c hh)]) = forwards e0 := by
-        rw [forwards_append]; simp [forwards]
+      have hf : fwdPkts (e0 ++ [NEff.armAfter c 0 50000000 (ICb.tcpConnectRefused c hh)]) = fwdPkts e0 := by
+        rw [fwdPkts_append]; simp [fwdPkts]
       rw [dials_of_errs c target _ _ (by rw [hf]; exact herr), hf, List.append_nil]
       have hsv : ∀ o', (n2.setTcp c { s2 with mss := n2.cfg.pathMtu s2.bound.addr target.addr, cwnd := n2.cfg.pathMtu s2.bound.addr target.addr * 2, chan := none }).sv o' = n2.sv o' := by
         intro o'; rw [sv_setTcp]; split
         · rename_i ho; subst ho; rw [hv2, ← hs2v]
           have : s2.chan = none := by rw [← hv2c, ← hs2v]; rfl
-          simp [TcpSock.view, this]
+          simp [TcpSock.hview, this]
         · rfl
       refine ⟨?_, hwork _ (by rw [hsv, hsa2]) _ rfl⟩
-      exact h2.sameView c hca v2 hv2 _ (s.bag ++ forwards e0) rfl rfl rfl rfl hsv (fun _ hp => Or.inl hp) h2.b_syn1
+      exact h2.sameView c hca v2 hv2 _ (s.bag ++ fwdPkts e0) rfl rfl rfl rfl hsv (fun _ hp => Or.inl hp) h2.b_syn1
     · -- the acceptor is listening: a channel and a SYN
       obtain ⟨rname, rs, l1, l2, l3⟩ := hl
       have hra : rname = a := by
         by_cases hra : rname = a
         · exact hra
-        · have := h2.o_acc rname rs.view hra (by simp [NetSt.sv, l2])
+        · have := h2.o_acc rname rs.hview hra (by simp [NetSt.sv, l2])
           rw [isListening_view] at l3
           simp [SockV.listening, this] at l3
       subst hra
       have htg : target = aep := h2.reg_a (target, rname) (mem_of_lookup _ _ _ l1) rfl
       subst htg
-      have hvra : n2.sv rname = some rs.view := by simp [NetSt.sv, l2]
-      obtain ⟨ac, hac⟩ : ∃ ac, rs.view.acc = some ac := by
+      have hvra : n2.sv rname = some rs.hview := by simp [NetSt.sv, l2]
+      obtain ⟨ac, hac⟩ : ∃ ac, rs.hview.acc = some ac := by
         obtain ⟨va', ac', q1, q2, _⟩ := h2.a_ex
         rw [hvra] at q1; cases q1; exact ⟨ac', q2⟩
       have hql : 0 < ac.queueLimit := by
         rw [isListening_view] at l3; simpa [SockV.listening, hac] using l3
-      have hopen : rs.view.isOpen = true := by
-        cases hvo : rs.view.isOpen with
+      have hopen : rs.hview.isOpen = true := by
+        cases hvo : rs.hview.isOpen with
         | true => rfl
         | false => have := (h2.a_closed _ ac hvra hac hvo).1; omega
       obtain ⟨hvb, hvf, _, _⟩ := h2.a_open _ hvra hopen
       obtain ⟨c1, c2, c3, c4, c5, c6, c7, syn, c8, c9, c10, c11, _⟩ :=
-        internalConnect_ok n2 c target v2 rname rs.view hv2 l1 hvra (by rw [← isListening_view]; exact l3)
+        internalConnect_ok n2 c target v2 rname rs.hview hv2 l1 hvra (by rw [← isListening_view]; exact l3)
       generalize connDial n2 c target hh e0 = r at *
       obtain ⟨n4, e4⟩ := r
       generalize n2.internalConnect c target = ic at *
       obtain ⟨n3, e3, cid⟩ := ic
       simp only at d1 d2 c1 c2 c3 c4 c5 c6 c7 c8 c9 c10 c11 ⊢
       subst d1; subst d2; subst c8
-      have hf : forwards (e0 ++ [NEff.forward syn]) = forwards e0 ++ [syn] := by
-        rw [forwards_append]; rfl
+      have hf : fwdPkts (e0 ++ [NEff.forward syn]) = fwdPkts e0 ++ [syn] := by
+        rw [fwdPkts_append]; rfl
       have hb2 : s2.bound = v2.bound := congrArg SockV.bound hs2v
       have hf2 : s2.fwd = v2.fwd := congrArg SockV.fwd hs2v
       have hd : dials c target (n3.setTcp c { s2 with mss := n2.cfg.pathMtu s2.bound.addr target.addr, cwnd := n2.cfg.pathMtu s2.bound.addr target.addr * 2, chan := some n2.chans.length, connectH := some hh })
@@ -779,7 +780,7 @@ theorem HFull.connect {a : String} {aep : Ep} {s : HS} (h : HFull a aep s) (hae 
         intro o'; rw [sv_setTcp]; split
         · rw [← hs2v]; rfl
         · simp [NetSt.sv, c5 o']
-      have := h2.dial c hca v2 rs.view ac hv2 hv2c hv2o hvra hac hql hh
+      have := h2.dial c hca v2 rs.hview ac hv2 hv2c hv2o hvra hac hql hh
         (n3.setTcp c { s2 with mss := n2.cfg.pathMtu s2.bound.addr target.addr, cwnd := n2.cfg.pathMtu s2.bound.addr target.addr * 2, chan := some n2.chans.length, connectH := some hh })
         syn c2 (by rw [setTcp_reg, c3]) (by rw [setTcp_fwds, c4]) (fun g => by simp [NetSt.fwdTarget, c4])
         (by rw [setTcp_chans]; exact c6) hsv
@@ -814,7 +815,7 @@ theorem HFull.run {a : String} {aep : Ep} (hae : aep ≠ {}) (tp : TParams) (ls 
 
 theorem init_sv_a (cfg : NetCfg) (a anode : String) (aep : Ep) (clients : List (String × String)) :
     (HS.init cfg a anode aep clients).net.sv a = some ⟨true, aep, some 0, none, none, some {}⟩ := by
-  simp [HS.init, NetSt.sv, NetSt.tcp?, List.lookup, TcpSock.view]
+  simp [HS.init, NetSt.sv, NetSt.tcp?, List.lookup, TcpSock.hview]
 
 theorem init_sv_other (cfg : NetCfg) (a anode : String) (aep : Ep) (clients : List (String × String))
     (o : String) (v : SockV) (hoa : o ≠ a) (hv : (HS.init cfg a anode aep clients).net.sv o = some v) :
@@ -889,4 +890,5 @@ theorem HFull.init (cfg : NetCfg) (a anode : String) (aep : Ep) (clients : List 
     · intro x hx; simp [HS.init] at hx
   · intro va ac hva hac _ hpe; rw [ha] at hva; cases hva; cases hac; cases hpe
 
+end Hs
 end SimVerif
